@@ -70,3 +70,12 @@ claim('C16', 'Lean 4 theorems on a hand model of pathbuf_to_filetype_impl over t
       "names over a 5-symbol alphabet incl. non-UTF-8, plus a name grammar) and a metamorphic oracle on the implementation.",
       TB + "Rust std Path::{file_name,extension,with_extension,with_file_name}, OsStr::to_str, str::{trim_*,to_ascii_lowercase} are modelled by hand on the final path component.",
       "DESIGN.md §6 C16")
+
+claim('C07', 'Lean 4 theorems (isolation, termination, error accounting on the coordinator model; totality/in-bounds of the modelled cores) + fault-injection stream on the real binary with trace replay',
+      "Machine-checked (the logic part): for every schedule and arbitrary behaviour of the other sources the output restricted to healthy sources is the merge of the healthy "
+      "sources, every run ends within a bound, errs = 0 iff all delivered data were ok and every source delivered a summary; find_line parts are always inside their blocks, "
+      "classification terminates for every name, searches never err. The rest is TESTING and labelled so: mutants of valid files of every kind/container (truncations, bit "
+      "flips, random bytes, constant fill, mismatched names) alone and beside valid sources under delay plans must exit 0/1 without panic text within a time limit and leave the "
+      "healthy sources' lines complete and ordered; traces are replayed through the model.",
+      TB + "Not provable here: absence of panics/aborts inside third-party decoders, libsystemd and the unsafe casts; wall-clock promptness.",
+      "DESIGN.md §6 C07")
